@@ -653,7 +653,7 @@ func genGeneric(r *lib.Rng, tier string) *Case {
 	top := tdMapAny
 	if r.Chance(2, 5) {
 		top = r.Intn(nTD - 1) // every type but nil
-		if r.Chance(1, 8) {
+		if r.Chance(1, 5) {
 			top = tdNum
 		}
 	}
